@@ -215,6 +215,43 @@ def run(ctx):
             ctx.ob(Rb, rc.qname, f"{clabel}: the 2^{dim} distinct vertices of the unit cell", got == verts and len(cpts) == 2 ** dim,
                    f"{len(cpts)} points, {len(got)} distinct vertices", rc.node)
             check_rule(ctx, Rb, rc.qname, rc.node, clabel, dim, cpts, cwts, 2, 0, 1, 1, max_deg=1)
+    # the domain of `order` is what the source tests for: integers and 'max'.  A test that admits another kind of order (a sequence: one order per
+    # direction) offers rules this table does not enumerate -- they are folded for sample tuples and held to the same exactness
+    for fn_ in (g, gr):
+        pname = fn_.params[1] if len(fn_.params) > 1 else None
+        seq_tests = [c_ for c_ in ast.walk(fn_.node) if isinstance(c_, ast.Call) and norm(c_.func) == "isinstance" and len(c_.args) == 2 and norm(c_.args[0]) == pname
+                     and any(t_ in norm(c_.args[1]) for t_ in ("tuple", "list", "ndarray", "Sequence", "Iterable"))]
+        if not seq_tests:
+            continue
+        for dim, order in ((2, (1, 2)), (2, (2, 0)), (3, (0, 1, 2))):
+            label = f"{fn_.name}({dim},{order!r})"
+            ctx.instance(Ra)
+            try:
+                v = Folder(max_steps=2_000_000).call(fn_.node, [dim, order])
+                pts, wts = _pts(dim, v[0]), _wts(v[1])
+            except Raised as e:
+                ctx.ob(Ra, fn_.qname, f"{label}: a sequence of orders (admitted by `{norm(seq_tests[0])}`) gives a rule", False, f"raises {e.name}", seq_tests[0], evidence=True)
+                continue
+            except (Refuse, TypeError, ValueError, IndexError) as e:
+                ctx.ob(Ra, fn_.qname, f"{label}: a sequence of orders (admitted by `{norm(seq_tests[0])}`) gives a rule", False, f"rule for a sequence of orders not found to be foldable: {e}", seq_tests[0])
+                continue
+            lo, hi = (-1, 1) if fn_ is g else (0, 1)
+            bad = []
+            if len(pts) != len(wts):
+                bad.append(f"{len(pts)} points, {len(wts)} weights")
+            else:
+                for alpha in itertools.product(*[range(2 * (o_ + 1)) for o_ in order]):
+                    s_ = Decimal(0)
+                    for p_, w_ in zip(pts, wts):
+                        t_ = w_
+                        for x_, a_ in zip(p_, alpha):
+                            if a_:
+                                t_ *= x_ ** a_
+                        s_ += t_
+                    ex = exact_integral(alpha, lo, hi)
+                    if not _close(s_, ex):
+                        bad.append(f"x^{alpha}: quadrature {s_:.10f} exact {ex:.10f}")
+            ctx.ob(Ra, fn_.qname, f"{label}: exact on every monomial of degree <= 2 n_k - 1 in variable k", not bad, f"{len(bad)} wrong, first {bad[0] if bad else ''}", seq_tests[0], evidence=True)
     ctx.floor(Ra, 9)
     ctx.floor(Rb, 9)
     ctx.stat("offered_gauss_rows", offered)
